@@ -1,7 +1,7 @@
 """C06 -- every run leaves a well-formed, schema-valid trace, whatever node fails (Engine A).
 
 P1  per (pipeline length n, detail level, output mode): fault position (symbolic int in [-1, n-1], -1 = no
-    fault), fault kind (symbolic, 8 kinds) and the special float placed in a traced parameter (symbolic index
+    fault), fault kind (symbolic, 9 kinds) and the special float placed in a traced parameter (symbolic index
     over {finite, inf, -inf, nan, none}) are decided by the solver; each leaf runs the REAL Pipeline with the
     REAL JsonlTraceDriver writing real files in a scratch directory and checks the emitted lines:
     pipeline_start, one SER per started node in canonical order, exactly one pipeline_end; ids shared; SER
@@ -30,7 +30,7 @@ ASSUMPTIONS = [
 ]
 OUTSIDE = ["pipelines longer than 4 nodes", "timestamp truthfulness (C07)", "run-space lifecycle records in the JSONL driver (C09 uses an in-memory driver)"]
 
-KINDS = ["processor-exception", "unresolvable-parameter", "type-gate", "undeclared-context-write", "construction:unknown-parameter", "construction:probe-without-context-key", "abort:BaseException", "construction:other-exception"]
+KINDS = ["processor-exception", "unresolvable-parameter", "type-gate", "undeclared-context-write", "construction:unknown-parameter", "construction:probe-without-context-key", "abort:BaseException", "construction:other-exception", "processor-exception:odd-args"]
 # value classes that stress record serialisation: index 0 = no special parameter; non-finite floats; strings that are awkward
 # for JSON / UTF-8 (non-ASCII, control characters and quotes, a lone surrogate as produced by os.fsdecode on undecodable
 # file names); an int beyond 64 bits; values json cannot encode natively (bytes, set); a nested container holding a nan
@@ -106,6 +106,14 @@ def _nodes(n: int, pos: int, kind: int, special, source_first: bool, in_cfg: boo
             lib.LOG.append(("raised", {"exc": e}))
             raise e
 
+    class OpRaiseOdd(lib._IntOp):
+        """raises an exception whose first argument is not a string (an exception object wrapping bytes)"""
+
+        def _process_logic(self, data):
+            e = RuntimeError(LookupError(b"calib\xff"), 7)
+            lib.LOG.append(("raised", {"exc": e}))
+            raise e
+
     class OpInitFails(lib._IntOp):
         """cannot be constructed: its __init__ raises an exception that is none of the configuration-error classes"""
 
@@ -138,6 +146,7 @@ def _nodes(n: int, pos: int, kind: int, special, source_first: bool, in_cfg: boo
             {"processor": lib.PrVal},
             {"processor": OpAbort, "parameters": {}},
             {"processor": OpInitFails, "parameters": {}},
+            {"processor": OpRaiseOdd, "parameters": {}},
         ][kind]
         nodes[pos] = faulty
     return nodes
@@ -156,7 +165,13 @@ def scenario(n: int, detail: str, file_mode: bool, source_first: bool, pos: int,
     nodes = _nodes(n, pos, kind, special, source_first, in_cfg)
     tag = uuid.uuid4().hex[:10]
     base = _scratch()
-    out = os.path.join(base, "t-%s.ser.jsonl" % tag) if file_mode else os.path.join(base, "d-%s" % tag)
+    if file_mode == "dotdir":
+        # directory output into a directory that already exists and has dots in its name
+        out = os.path.join(base, "d.%s.v1" % tag)
+        os.makedirs(out)
+        file_mode = False
+    else:
+        out = os.path.join(base, "t-%s.ser.jsonl" % tag) if file_mode else os.path.join(base, "d-%s" % tag)
 
     opened: List[Any] = []
 
@@ -190,7 +205,7 @@ def scenario(n: int, detail: str, file_mode: bool, source_first: bool, pos: int,
         n_ser, last_status = pos + 1, "error"
     if (pos < 0) != returned:
         return Fail("C06.P1:outcome:%s" % kname, "call %s although fault position is %d" % ("returned" if returned else "raised %r" % (exc,), pos))
-    if pos >= 0 and kind == 0:
+    if pos >= 0 and kind in (0, 8):
         raised = [e for (nm, e) in lib.LOG if nm == "raised"]
         if not raised or exc is not raised[-1]["exc"]:
             return Fail("C06.P1:exception-not-original:%s" % kname, "caller received %r, the processor raised %r" % (exc, raised[-1]["exc"] if raised else None))
@@ -318,9 +333,10 @@ def obligations(tier: str) -> List[Ob]:
     big = tier == "thorough"
     lens = (1, 2, 3) if not big else (1, 2, 3, 4)
     params = [(n, d, fm, sf) for n in lens for d in DETAILS for fm in (True, False) for sf in (False, True)]
+    params += [(2, d, "dotdir", False) for d in ("hash", "all")]
     return [
         Ob("C06.P1", _make_p1, _replay_p1, params=params, budget=600, per_path=120,
-           bound="per (length n in %s, detail flags: all 7 non-empty subsets of {hash, repr, context}, file/directory output, source-first or not): fault position in [-1, n-1], fault kind over 8 kinds, special value class over {none, finite float, inf, -inf, nan, non-ASCII str, control-character str, lone-surrogate str, 70-bit int, bytes, frozenset, nested container with nan} reaching a traced parameter from the context or from the node configuration (flag) -- all four symbolic; values concrete" % (list(lens),),
+           bound="per (length n in %s, detail flags: all 7 non-empty subsets of {hash, repr, context}, file/directory output (plus an existing directory with dots in its name), source-first or not): fault position in [-1, n-1], fault kind over 9 kinds, special value class over {none, finite float, inf, -inf, nan, non-ASCII str, control-character str, lone-surrogate str, 70-bit int, bytes, frozenset, nested container with nan} reaching a traced parameter from the context or from the node configuration (flag) -- all four symbolic; values concrete" % (list(lens),),
            targets=["semantiva/execution/orchestrator/orchestrator.py:SemantivaOrchestrator.execute", "semantiva/trace/drivers/jsonl.py:JsonlTraceDriver.on_pipeline_start", "semantiva/trace/drivers/jsonl.py:JsonlTraceDriver.on_node_event", "semantiva/trace/drivers/jsonl.py:JsonlTraceDriver.on_pipeline_end", "semantiva/execution/orchestrator/orchestrator.py:SemantivaOrchestrator._instantiate_nodes"], stubs=list(STUBS)),
         Ob("C06.U1", _make_u1, lambda p, a: C01._replay_simple(_u1)(p, dict(a, nn=p[0], ne=p[1])), params=[(nn, ne) for nn in (1, 2, 3, 4) for ne in (0, 1, 2, 3) if not (nn == 4 and ne == 3)], budget=300, bound="<= 4 node ids, <= 3 edges with symbolic endpoints (4 nodes: <= 2 edges)", targets=["semantiva/pipeline/graph_builder.py:compute_upstream_map"]),
     ]
